@@ -9,6 +9,7 @@ import OsmVerif.Oracle.C11
 import OsmVerif.Oracle.C17
 import OsmVerif.Oracle.C04
 import OsmVerif.Oracle.C05
+import OsmVerif.Oracle.Pbf
 /-! Line-protocol driver: one case per input line `<Cxx> <op> <payload…>`, one output line each. -/
 open OsmVerif.Oracle
 
@@ -26,6 +27,7 @@ def dispatch (line : String) : String :=
   | "C04" :: rest => C04.handle rest
   | "C03" :: rest => C04.handle rest
   | "C05" :: rest => C05.handle rest
+  | "C01" :: rest => Pbf.handleC01 rest
   | "C16" :: rest => C17.handle rest
   | "C12" :: rest => C11.handle rest
   | _ => "bad-op"
